@@ -63,3 +63,18 @@ Definition ex1_v : val := (VStruct [("Mapper", (VStruct [])); ("EmbP", (VPtr (VS
 Definition ex1_v_nils : val := (VStruct [("Mapper", (VStruct [])); ("EmbP", VNil); ("ID", (VInt (7)%Z)); ("UserID", (VInt (1099511627781)%Z)); ("N8", (VInt (-3)%Z)); ("S2", (VStr "tagged")); ("Skip", (VInt (99)%Z)); ("Amount", (VStr "")); ("In", (VStruct [("A", (VInt (1)%Z)); ("B", (VStr "in"))])); ("InP", VNil); ("Ins", VNil); ("InPs", (VList [VNil])); ("Lv", (VInt (4)%Z))]).
 Definition ex2_v : val := (VStruct [("Emb", (VPtr (VStruct [("X", (VInt (3)%Z))]))); ("ID", (VInt (1)%Z)); ("Name", (VStr "n")); ("Tags", (VList [(VStr "a"); (VStr "b")]))]).
 Definition ex2_v_nil : val := (VStruct [("Emb", VNil); ("ID", (VInt (1)%Z)); ("Name", (VStr "n")); ("Tags", VNil)]).
+
+(* ex5: the source is a shoot-new type (constructor NewT(note, count), getters Note/Count, setter SetCount);
+   the constructor argument for note goes through the mapper method F *)
+Definition ex5 : pairspec :=
+(let E : env := [((PSrc, "Mapper"), DStruct []);
+  ((PSrc, "T"), DStruct [{| sf_name := "Mapper"; sf_emb := true; sf_ty := (TNamed PSrc "Mapper"); sf_tag := "" |}; {| sf_name := "note"; sf_emb := false; sf_ty := (TBasic BString); sf_tag := "" |}; {| sf_name := "count"; sf_emb := false; sf_ty := (TBasic BInt); sf_tag := "" |}]);
+  ((PDst, "T"), DStruct [{| sf_name := "Note"; sf_emb := false; sf_ty := (TBasic BUint16); sf_tag := "" |}; {| sf_name := "Count"; sf_emb := false; sf_ty := (TBasic BInt); sf_tag := "" |}]);
+  (((POth "common"), "Level"), DBasic BInt);
+  (((POth "common"), "Code"), DBasic BString);
+  (((POth "common"), "Ratio"), DBasic BFloat64);
+  (((POth "common"), "Flag"), DBasic BBool);
+  (((POth "common"), "Tiny"), DBasic BInt8);
+  (((POth "common"), "Money"), DStruct [{| sf_name := "Units"; sf_emb := false; sf_ty := (TBasic BInt64); sf_tag := "" |}; {| sf_name := "Cur"; sf_emb := false; sf_ty := (TBasic BString); sf_tag := "" |}])] in let FN : list mfunc := [{| mf_name := "F"; mf_param := (TBasic BUint16); mf_result := (TBasic BString) |}] in {| ps_env := E; ps_fuel := 11; ps_jobs := [{| j_env := E; j_fuel := 11; j_src := "T"; j_dst := "T"; j_funcs := FN; j_ic := false; j_src_acc := [{| ac_name := "Count"; ac_ty := (TBasic BInt); ac_set := false; ac_path := ["count"] |}; {| ac_name := "Note"; ac_ty := (TBasic BString); ac_set := false; ac_path := ["note"] |}; {| ac_name := "SetCount"; ac_ty := (TBasic BInt); ac_set := true; ac_path := ["count"] |}]; j_dst_acc := []; j_src_ctor := [{| cp_field := "note"; cp_path := ["note"]; cp_ty := (TBasic BString) |}; {| cp_field := "count"; cp_path := ["count"]; cp_ty := (TBasic BInt) |}]; j_dst_ctor := []; j_src_shootnew := true; j_manual_to := None; j_manual_from := None |}]; ps_funcs := [("F", (FParity "#v"))]; ps_manual_to := []; ps_manual_from := []; ps_way := WBoth |}).
+Definition ex5_d : val := (VStruct [("Note", (VInt (3)%Z)); ("Count", (VInt (9)%Z))]).
+Definition ex5_dirty : val := (VStruct [("Mapper", (VStruct [])); ("note", (VStr "old")); ("count", (VInt (1)%Z))]).
